@@ -141,7 +141,8 @@ Candidates(cur) ==       \* cur: the public call in progress [kind, goal, stopAt
                    THEN LET ans == tables[t].answers[s.selA + 1] IN
                         IF lit.pos
                         THEN LET new == Fresh(s.del, ans.del) IN
-                             {[ev |-> "Merge", outcome |-> "ok", next |-> <<>>,
+                             {[ev |-> "Merge", outcome |-> "ok",
+                               next |-> IF ans.del # <<>> THEN <<[s EXCEPT !.selA = s.selA + 1]>> ELSE <<>>,
                                strand |-> <<[Deselect(s) EXCEPT
                                    !.lits = RemoveAt(s.lits, s.sel)
                                             \o (IF s.ref THEN [i \in 1..Len(new) |-> [pos |-> TRUE, g |-> new[i]]] ELSE <<>>),
